@@ -138,13 +138,16 @@ def main(argv=None):
         os.makedirs(os.path.join(VERIF, 'evidence'), exist_ok=True)
         with open(os.path.join(VERIF, 'evidence', pid + '.json'), 'w') as f:
             json.dump(ev, f, indent=1)
+    if os.path.abspath(args.repo) != '/repo':
+        shutil.rmtree(os.path.join(VERIF, 'build', '%s-%d' % (pid, os.getpid())), ignore_errors=True)
     return rc
 
 def match_any(pats, s):
     return any(re.search(p, s) for p in pats)
 
 def decide(pid, cfg, tier, seed, args):
-    work = os.path.join(VERIF, 'build', pid)
+    # a scratch copy gets its own work directory: several checks of the same property may run at once (seed / benign reports)
+    work = os.path.join(VERIF, 'build', pid if os.path.abspath(args.repo) == '/repo' else '%s-%d' % (pid, os.getpid()))
     shutil.rmtree(work, ignore_errors=True)
     os.makedirs(work, exist_ok=True)
     units = cfg['units']
